@@ -78,7 +78,7 @@ void abort(void)
 	_exit(134);
 }
 
-static volatile unsigned long sink;
+static _Thread_local volatile unsigned long sink;
 
 static void emit0(const char *mcv)
 {
